@@ -273,7 +273,7 @@ pub fn run(out: &mut Out, tier: &str, rng: &mut Rng) {
         out.case("li_into_parts", &[&s], || li_into_parts(&s));
         out.case("li_routes", &[&s], || li_routes(&s));
         from_parts_case(out, rng, &toks);
-        let canon = LanguageIdentifier::from_bytes(&s).map(|x| x.to_string()).unwrap_or_default().into_bytes();
+        let canon = gen_call(|| LanguageIdentifier::from_bytes(&s).map(|x| x.to_string()).unwrap_or_default()).unwrap_or_default().into_bytes();
         out.case("li_eq_str", &[&s, &canon], || li_eq_str(&s, &canon));
         out.case("li_cmp", &[&s, &canon], || li_cmp(&s, &canon));
         let mut m = s.clone(); m.extend_from_slice(*rng.pick(&[&b"-*"[..], b"-abcdefghi", b"-abcd", b"--", b"-u", b"-1"]));
@@ -303,7 +303,7 @@ pub fn run(out: &mut Out, tier: &str, rng: &mut Rng) {
     for _ in 0..n {
         let a = rng.pick(&pool).clone();
         let b = if rng.chance(1, 5) { // same logical value along another route: different case/sep/variant order
-            let li = LanguageIdentifier::from_bytes(&a).map(|x| x.to_string()).unwrap_or_default();
+            let li = gen_call(|| LanguageIdentifier::from_bytes(&a).map(|x| x.to_string()).unwrap_or_default()).unwrap_or_default();
             li.into_bytes()
         } else { rng.pick(&pool).clone() };
         let f = rng.below(4) as u8;
@@ -311,7 +311,7 @@ pub fn run(out: &mut Out, tier: &str, rng: &mut Rng) {
         let fa: &[u8] = if ra { b"1" } else { b"0" }; let fb: &[u8] = if rb { b"1" } else { b"0" };
         out.case("li_matches", &[&a, &b, fa, fb], || li_matches(&a, &b, ra, rb));
         out.case("li_cmp", &[&a, &b], || li_cmp(&a, &b));
-        let t = if rng.chance(1, 2) { LanguageIdentifier::from_bytes(&a).map(|x| x.to_string()).unwrap_or_default().into_bytes() } else { b.clone() };
+        let t = if rng.chance(1, 2) { gen_call(|| LanguageIdentifier::from_bytes(&a).map(|x| x.to_string()).unwrap_or_default()).unwrap_or_default().into_bytes() } else { b.clone() };
         if std::str::from_utf8(&t).is_ok() { out.case("li_eq_str", &[&a, &t], || li_eq_str(&a, &t)); }
         // the canonical text with one character replaced by a 2- or 3-byte character (never equal; never a panic)
         if rng.chance(1, 3) {
